@@ -19,18 +19,23 @@ from .. import c13_terms as T
 from .. import c13_judge as J
 
 LEVEL = 'exploration'
-RULE = ('bodies: all terms over leaves {u,v,w:(2,), p:(), const (2,)} with ops {neg,sq,sin,add,mul,sum,dot} of depth<=1 under two naming '
-        'schemes (single letters; names that are substrings of each other), depth 2 (quick: binary nodes with one leaf operand; thorough: all) '
-        'and thorough depth 3 (one leaf operand per binary node); scalar integrands over {fld(u),fld(v),fld(w),p,x} depth<=1 (quick) / <=2 (thorough) wrapped in '
-        'an integral over a 2-element line and in sample.bind; 14 bodies with the int argument n. For each body every map of the catalogue '
-        '(per key: const, fresh name, other argument, 3 expressions incl. self reference and an integral; swap, simultaneous shift, rotation, '
-        'cross reference, two keys, ignored key, name conflict, value bound to the space; 7 chain / nested forms) in EVERY documented spelling '
-        '(dict, "a:b,c:d", tuple/list of strings, list/tuple of pairs with str or Argument keys and str / Argument / Array / numpy / python '
-        'values, mixed); linearize per key and for all keys in every spelling, second order; derivative to every argument by name, object, '
-        'method; factor of every polynomial body of degree<=3 on 3 valuations, then derivative/linearize/replace of the factored form; '
-        'rejection of non polynomials; all broadcast-compatible wrong shapes and int<->float values at replace time, as keys, as directions, '
-        'and at evaluation time. non-trivial = distinct (body, manipulation) where the manipulated argument occurs in the body and the '
-        'reference value depends on it, or a distinct ill-typed request that reaches a validation rule')
+RULE = ('bodies: all terms over leaves {u,v,w:(2,), p:(), const (2,)} with ops {neg,sq,sin,add,mul,sum,dot}: depth<=1 (56 bodies, under two naming '
+        'schemes: single letters, and names that are substrings of each other), depth 2 (quick: binary nodes with one leaf operand, 922; thorough: '
+        'all 5211), thorough depth 3 (one leaf operand per binary node, 15648, reduced catalogue); scalar integrands over {fld(u),fld(v),fld(w),p,x} '
+        'with {neg,sq,sin,add,mul} of depth<=1 (43; thorough also depth 2 with one leaf operand, 560), each wrapped in an integral over a 2-element '
+        'line and in sample.bind (loop concatenate); 14 bodies with the int argument n. For each body every map of the catalogue that touches its '
+        'arguments (per key: const, fresh name, other argument, expression, self-referencing expression, expression containing an integral, value '
+        'bound to the space; swaps, simultaneous shift in both orders, rotation, cross reference, two keys, ignored key, name conflicts; applied to the '
+        'integrand as well as to the integral; 7 chain / nested forms: u->v then v->w, replacement inside a replaced expression, replaced subterm, '
+        'replaced value, removed key, swap twice) in EVERY documented spelling (dict, "a:b,c:d", tuple/list of strings, list/tuple of pairs with '
+        'str or Argument keys and str / Argument / Array / numpy / python values, alternating and mixed string-pair lists; 6-23 per map); linearize '
+        'per key, for all keys, to names / arguments / expressions / constants in every spelling, second order, of a replaced body and replaced '
+        'afterwards; derivative to every argument by name, object, method, and to an absent argument; factor of every body of polynomial degree<=3 '
+        'on 3 valuations, derivative / linearize / replace of the factored form, factor of replaced bodies, rejection of non polynomials; all '
+        'broadcast-compatible wrong shapes and int/float/bool dtype mismatches as replacement values (constants, Argument objects, expressions), '
+        'as Argument-object keys, as directions, as derivative targets, and as values supplied at evaluation time (numpy and plain python) for plain, '
+        'replaced, linearized, differentiated and factored bodies. non-trivial = distinct (body, manipulation) whose reference value depends on at least '
+        'one argument, or a distinct ill-typed request (it reaches a validation rule)')
 ASSUMPTIONS = ['numpy evaluation with environment passing is the reference semantics of replace (simultaneous substitution, values taken in the outer environment)',
                'complex-step differentiation (Richardson differences for second order, tolerance 1e-6) is the reference directional derivative',
                'Gauss-Legendre quadrature with the same number of points written with numpy is the reference integral',
@@ -224,15 +229,15 @@ def shards(tier, seed):
     add('intarg', 'intarg', 'plain', 1)
     add('diff', 'alg01', 'plain', 2)
     add('diff', 'alg01', 'nest', 2)
-    add('factor', 'alg01', 'plain', 2)
-    add('factor', 'alg01', 'nest', 2)
+    add('factor', 'alg01', 'plain', 4)
+    add('factor', 'alg01', 'nest', 4)
     add('chain', 'alg01', 'plain', 2)
     add('chain', 'alg01', 'nest', 2)
-    add('replace', 'spat01', 'plain', 6)
-    add('replace', 'spat01', 'nest', 6)
+    add('replace', 'spat01', 'plain', 8)
+    add('replace', 'spat01', 'nest', 8)
     add('chain', 'spat01', 'plain', 4)
     add('diff', 'spat01', 'plain', 4)
-    add('factor', 'spat01', 'plain', 4)
+    add('factor', 'spat01', 'plain', 10)
     add('typing', 'spat01', 'plain', 2)
     add('evalvalue', 'spat01', 'plain', 10)
     if quick:
@@ -241,18 +246,18 @@ def shards(tier, seed):
         add('diff', 'alg2', 'plain', 16)
         add('factor', 'alg2', 'plain', 12, reduced=True)
     else:
-        add('replace', 'alg2', 'plain', 60)
-        add('replace', 'alg2p', 'nest', 12)
-        add('chain', 'alg2', 'plain', 40)
-        add('diff', 'alg2', 'plain', 40)
-        add('factor', 'alg2p', 'plain', 30)
-        add('factor', 'alg2', 'plain', 60, reduced=True)
-        add('replace', 'alg3', 'plain', 60, reduced=True)
-        add('diff', 'alg3', 'plain', 40, reduced=True)
-        add('replace', 'spat2full', 'plain', 60, reduced=True)
-        add('chain', 'spat2', 'plain', 20)
-        add('diff', 'spat2', 'plain', 20)
-        add('factor', 'spat2', 'plain', 20, reduced=True)
+        add('replace', 'alg2', 'plain', 20)
+        add('replace', 'alg2p', 'nest', 6)
+        add('chain', 'alg2', 'plain', 12)
+        add('diff', 'alg2', 'plain', 14)
+        add('factor', 'alg2p', 'plain', 14)
+        add('factor', 'alg2', 'plain', 6, reduced=True)
+        add('replace', 'alg3', 'plain', 16, reduced=True)
+        add('diff', 'alg3', 'plain', 14, reduced=True)
+        add('replace', 'spat2', 'plain', 10, reduced=True)
+        add('chain', 'spat2', 'plain', 6)
+        add('diff', 'spat2', 'plain', 6)
+        add('factor', 'spat2', 'plain', 2, reduced=True)
     return out
 
 
@@ -261,6 +266,7 @@ def shards(tier, seed):
 def _record(res, out, nontrivial_key):
     res.count('evaluations', max(out.evaluations, 1))
     res.count('cases')
+    res.count('values_compared', out.compared)
     res.distinct('distinct_outcomes', out.status + ':' + ','.join(sorted(out.rejected_by)))
     if out.status.startswith('skipped'):
         res.count('skipped')
@@ -368,6 +374,11 @@ def _run_diff(res, f, F, scheme, reduced=False):
         _judge(res, [['der', ['der', f, k, 'name'], k2, how] for how in ('name', 'obj')], scheme, 'second-order')
         _judge(res, [['lin', ['replace', f, [[k, ['mul', A(k), A(k)]]], ['dict', 's', 'A']], [[k, d1]], sp] for sp in T.spellings_for([[k, d1]])[:6]], scheme, 'of-replaced')
         _judge(res, [['replace', ['lin', f, [[k, d1]], sp], [[k, ['mul', A(k), A(k)]]], ['dict', 's', 'A']] for sp in T.spellings_for([[k, d1]])[:6]], scheme, 'replace-of-lin')
+        # chain rule through a replacement: derivative of a replaced body to the arguments of the replacement value
+        rt = ['replace', f, [[k, ['mul', A(NEXT[k]), A('p')] if k != 'p' else ['sum', A('u')]]], ['list-pairs', 'A', 'A']]
+        for key in sorted(T.model(rt).args):
+            if key in 'uvwp':
+                _judge(res, [['der', rt, key, how] for how in ('name', 'obj')], scheme, 'of-replaced')
 
 
 def _run_factor(res, f, F, scheme, reduced=False):
